@@ -256,13 +256,13 @@ theorem parseTail_rt (h : Header) (hw : WFHeader h) (fuel : Nat) (hf : HeaderFue
   cases hs : h.subsequents with
   | nil =>
     have hp := parseDeps_rt fuel fuel h.priors hw.priors hf.priorArgs (Tk.other "Eol" :: rest) (endsDeps_eol rest) fuel hf.priors
-    simp only [printSubsequents, List.nil_append, parseTail, hp]
+    simp only [printSubsequents, List.nil_append, parseTail, hp, expectEol_eol]
   | cons s ss =>
     have hp := parseDeps_rt fuel fuel h.priors hw.priors hf.priorArgs (Tk.andand :: (printDeps (s :: ss) ++ Tk.other "Eol" :: rest))
       (endsDeps_and _) fuel hf.priors
     have hsub := parseDeps_rt fuel fuel (s :: ss) (by rw [← hs]; exact hw.subsequents) (by rw [← hs]; exact hf.subsequentArgs)
       (Tk.other "Eol" :: rest) (endsDeps_eol rest) fuel (by rw [← hs]; exact hf.subsequents)
-    simp only [printSubsequents, List.cons_append, parseTail, hp, hsub]
+    simp only [printSubsequents, List.cons_append, parseTail, hp, hsub, expectEol_eol]
 
 theorem afterParam_colon (d : Option Expr) (rest : List Tk) : AfterParam d (Tk.other "Colon" :: rest) := by
   cases d <;> simp only [AfterParam]
